@@ -180,7 +180,7 @@ Proof. intros k Hk. vm_compute in Hk. destruct Hk as [<-|[]]. unfold live. vm_co
 Lemma x_guarded2 : guarded Hid ct0 x_s8 [x_o9; x_o10].
 Proof.
   eapply guarded_cons; [exact x_e9 | |].
-  { split; [vm_compute; reflexivity|]. split; [exact x_k9 | intros _; exact x_g9]. }
+  { left. split; [vm_compute; reflexivity|]. split; [exact x_k9 | intros _; exact x_g9]. }
   eapply guarded_cons; [exact x_e10 | left; vm_compute; reflexivity|]. exact I.
 Qed.
 Lemma x_example_replace :
@@ -226,7 +226,7 @@ Qed.
 Lemma x_guarded3 : guarded Hid ct0 x_s10 [x_o11].
 Proof.
   eapply guarded_cons; [exact x_e11 | | exact I].
-  split; [vm_compute; reflexivity|]. split; [vm_compute; reflexivity|]. rewrite x_m11_eq. exact x_g11.
+  left. split; [vm_compute; reflexivity|]. rewrite x_m11_eq. exact x_g11.
 Qed.
 Lemma x_example_replace_with :
   Inv2 Hid ct0 x_s10 /\ parent x_s10 5 = None /\ detached x_s10 5 = false /\
